@@ -111,7 +111,9 @@ CHECKS = {
                   "handshakes, addresses, table and schedule unchanged and emits nothing, also for every sequence; for EVERY wire value (replays of "
                   "genuine handshake messages included) a connection object satisfying the handshake invariant never reaches the unwrap of a "
                   "consumed ECDH key, the invariant survives every non-fatal outcome, and a fatal outcome removes a pending object in the same "
-                  "step; decrypt, Ethernet and IP dissection have no panic result for any input. Tied to the code by every length 0..80 x first "
+                  "step; over WHOLE RUNS (induction over arbitrary event sequences, invariant QP of every node step): while everything that arrived "
+                  "was well-formed (unverifiable bytes and verbatim replays of honest messages are) no datagram from any source and no housekeeping second "
+                  "panics; decrypt, Ethernet and IP dissection have no panic result for any input. Tied to the code by every length 0..80 x first "
                   "byte x receiver state, bit flips at every byte position of captured handshake datagrams, truncations, replays of other "
                   "exchanges' handshake datagrams into pending handshakes (twice each), forged high-counter datagrams, each followed by payload "
                   "probes on the established connection; run on the real node (catch_unwind, state-dump equality) and the model.",
